@@ -1082,6 +1082,65 @@ def check_schedule(ctx, gen_seed):
     return bad, {"n": n, "buckets": len(a), "random_state": seed}
 
 
+def check_template(ctx, gen_seed):
+    """The fitted model holds its OWN models: the estimator / binner objects given to the constructor are templates.
+    What the caller does with them after the fit (here: fitting the very same objects on another training set, what a
+    second piecewise model sharing the template does) must not change what the fitted model returns - in particular
+    for rows of buckets that were empty at training time, which go to the global fallback model trained on the whole
+    training set."""
+    import random
+    import warnings
+    import numpy
+    from sklearn.linear_model import LinearRegression, LogisticRegression
+    from sklearn.preprocessing import KBinsDiscretizer
+    from sklearn.tree import DecisionTreeRegressor
+    from mlinsights.mlmodel.piecewise_estimator import PiecewiseClassifier, PiecewiseRegressor
+    rng = random.Random(gen_seed)
+    task = rng.choice(["reg", "clf"])
+    n = rng.randint(24, 60)
+    x0 = numpy.array([rng.uniform(0, 9) for _ in range(n)])
+    X = numpy.stack([x0, x0 + numpy.array([rng.uniform(-0.4, 0.4) for _ in range(n)])], axis=1)   # the diagonal cells only
+    yr = 2.0 * X[:, 0] - X[:, 1] + numpy.array([rng.uniform(-0.2, 0.2) for _ in range(n)])
+    yc = (X[:, 0] + numpy.array([rng.uniform(-2, 2) for _ in range(n)]) > 4.5).astype(int)
+    yc[:2] = [0, 1]
+    y = yr if task == "reg" else yc
+    w = None if rng.random() < 0.5 else numpy.array([rng.choice([0.5, 1.0, 2.0]) for _ in range(n)])
+    use_tree = rng.random() < 0.3
+    binner = DecisionTreeRegressor(max_depth=2, random_state=0) if use_tree else \
+        KBinsDiscretizer(n_bins=3, strategy="uniform")
+    est = LinearRegression() if task == "reg" else LogisticRegression(max_iter=60)
+    G = numpy.array([[a, b] for a in (0.5, 4.5, 8.5) for b in (0.5, 4.5, 8.5)], dtype=float)    # off-diagonal = unseen cells
+    info = {"task": task, "binner": "tree" if use_tree else "bins", "n": n, "weights": w is not None}
+    bad = []
+    with warnings.catch_warnings():
+        warnings.simplefilter("ignore")
+        cls = PiecewiseRegressor if task == "reg" else PiecewiseClassifier
+        model = cls(binner, est, n_jobs=rng.choice([None, 2]))
+        model.fit(X, y, w)
+        meths = ["predict"] + (["predict_proba"] if task == "clf" else [])
+        before = {m: numpy.asarray(getattr(model, m)(G)).copy() for m in meths}
+        ids = numpy.asarray(model.transform_bins(G))
+        info["unseen_rows"] = int((ids < 0).sum())
+        # the caller now reuses the templates for something else
+        X2 = X[::-1] * numpy.array([1.0, -1.0]) + numpy.array([0.0, 9.0])
+        y2 = (-(y[::-1]) + 3.0) if task == "reg" else 1 - y[::-1]
+        try:
+            est.fit(X2, y2)
+            binner.fit(X2, y2 if use_tree else None)
+        except Exception:  # noqa: BLE001
+            return [], dict(info, skipped="the templates cannot be refitted")
+        for m in meths:
+            after = numpy.asarray(getattr(model, m)(G))
+            if before[m].shape != after.shape or not numpy.array_equal(before[m], after):
+                rows = [i for i in range(G.shape[0]) if not numpy.array_equal(before[m][i], after[i])] \
+                    if before[m].shape == after.shape else []
+                bad.append(("%s.%s:changes-when-the-template-estimator-is-reused" % (cls.__name__, m),
+                            "outputs of a fitted model change after the estimator / binner objects given to its "
+                            "constructor were fitted on another training set by the caller (rows %s, bucket ids %s)"
+                            % (rows[:6], ids[rows[:6]].tolist()), after.tolist()[:6], before[m].tolist()[:6]))
+    return bad, info
+
+
 def _run(ctx, item):
     k = item["kind"]
     if k == "recording":
@@ -1090,6 +1149,8 @@ def _run(ctx, item):
         return check_real(ctx, item["gen_seed"], item["labels"])
     if k == "schedule":
         return check_schedule(ctx, item["gen_seed"])
+    if k == "template":
+        return check_template(ctx, item["gen_seed"])
     raise ValueError("unknown replay kind %r" % k)
 
 
@@ -1107,6 +1168,8 @@ def search(ctx, hints):
                       "labels": ["int", "float", "str", "bigint", "strlen"][t % 5]})
     for t in range(ctx.pick(2, 6)):
         items.append({"kind": "schedule", "gen_seed": rng.randrange(1 << 30)})
+    for t in range(ctx.pick(8, 60)):
+        items.append({"kind": "template", "gen_seed": rng.randrange(1 << 30)})
     for it in items:
         try:
             bad, info = _run(ctx, it)
